@@ -252,7 +252,7 @@ FlushSwap ==
 
 \* background compaction (abstract policy: when L0 reaches the trigger, merge
 \* all of L0 and L1 into one L1 table; tombstones dropped because L1 is the base)
-CompactPick ==
+CompactPickO(overlap) ==
   /\ compQ > 0 /\ ~comp.on
   /\ compQ' = compQ - 1
   /\ IF Len(lv[1]) >= L0Trigger
@@ -266,9 +266,14 @@ CompactPick ==
              /\ files' = IF out = <<>> THEN files
                          ELSE [files EXCEPT !.sst = Override(@, [t \in {nextTid} |-> merged])]
      ELSE UNCHANGED <<comp, nextTid, files, zombies, ngc, dropped, nfl>>
-  /\ Log([a |-> "CompactPick"])
+  \* overlap: the replayer lets a flush task that is waiting to start build its table while this compaction is creating
+  \* its first output file (the two task queues run concurrently in the code; both take table ids from one TableWriter).
+  \* A scheduling hint in the history, not state: the flush still swaps at its own FlushSwap step.
+  /\ Log([a |-> "CompactPick", overlap |-> overlap])
   /\ UNCHANGED <<seq, mem, lv, latest, wal, flushQ, flush, ckpts, pendRm, saves, returned, rd, oracle, snapAt, nops, nrd, nck, nre, nrt, zombies, ngc, dropped, nfl>>
   /\ objs' = IF Len(lv[1]) >= L0Trigger THEN objs \cup {nextTid} ELSE objs
+
+CompactPick == \E overlap \in BOOLEAN : CompactPickO(overlap)
 
 CompactSwap ==
   /\ comp.on
